@@ -10,6 +10,7 @@ PROPS = {
             {'template': 'units/c04_int_err.rs.in', 'modes': [[]], 'canary': True},
             {'template': 'units/c07_binop_plan.rs.in', 'modes': [[]], 'canary': True},
             {'template': 'units/c07_compound_tables.rs.in', 'modes': [[]], 'canary': True},
+            {'template': 'units/c04_parse_compound.rs.in', 'modes': [[]], 'canary': True},
         ],
         'kani': [{'name': 'c04', 'jobs': 8, 'timeout': 1500}],
         # the parser's desugaring of compound assignment on fields / list elements and the recursive descent around the
@@ -31,7 +32,7 @@ PROPS = {
             ('stdlib::py_floor_div', {'l': {'f': '-7.0'}, 'r': {'i': 2}}),
         ],
         'not_covered': [
-            'in emit_binop_expr the recursive emit_expr of the operands is an assumed contract; quote! is modelled by its literal tokens and spliced values (trusted); the parser\'s desugaring of compound assignment on fields / elements only by the bounded stand-in',
+            'in emit_binop_expr the recursive emit_expr of the operands is an assumed contract; quote! is modelled by its literal tokens and spliced values (trusted); in the parser\'s desugaring of compound assignment the parsing of the target and of the value (recursive descent) is the arm\'s input',
             'IEEE-754 division, fmod and floor themselves (hardware / libm)',
         ],
         'assumptions': [],
@@ -90,6 +91,7 @@ PROPS = {
             {'template': 'units/c07_compat.rs.in', 'modes': [[]], 'canary': True},
             {'template': 'units/c07_check_assign.rs.in', 'modes': [[]], 'canary': True},
             {'template': 'units/c07_const_eval.rs.in', 'modes': [[]], 'canary': True},
+            {'template': 'units/c04_parse_compound.rs.in', 'modes': [[]], 'canary': True},
         ],
         'kani': [],
         'not_covered': [
